@@ -64,6 +64,13 @@ CLAIMED = {
         "technique": "Rocq refinement proof (literal walkers/filters/naming ⊑ declarative spec, permutation oracles for map iteration) + differential run of the shoot binary on generated multi-file packages vs the model, compared in Coq",
         "coq_targets": ["Properties/C16.vo", "Corr/CliCorr.vo"],
     },
+    "C17": {
+        "text": "Theorems over all directory states (hard links, look-alikes, leftovers), all output lists in any order, all chunkings of every write, all temp names and ALL crash points (prefixes of the operation list): every output name shows the complete old or the complete new file; no pre-existing inode is ever written (hard links and open readers keep the old bytes); names that are not outputs, this run's temporaries or Clean victims are untouched; after normal termination no temporary remains; Clean's victims are exactly the matching files that carry the header of the same subcommand and are not all-in-one files, never a hand-written file; output names match *.shoot<cmd>*.go and are path components. Tied to cmd/shoot/main.go and generatorbase.go by strace-level trace correspondence, inode/state diffs, L1 comparison of the header regexps and glob, and (thorough) SIGKILL and concurrent-reader runs.",
+        "design_ref": "DESIGN.md section 8, C17; section 13",
+        "note": COMMON_NOTE + "Partial: rename(2) atomicity and the kernel's behaviour under SIGKILL are assumptions of the model (sampled by 200 killed runs in the thorough tier); the directory is flat and holds regular files only. Open finding K_clean_own_output (-type '*' together with [dir]: Clean deletes the run's own output) is guarded, refuted by witness and replayed.",
+        "technique": "Rocq proof of an inode-level file-system model of the write protocol (invariants over all operation prefixes) + strace trace/inode-state correspondence with the real binary, compared inside Coq",
+        "coq_targets": ["Properties/C17.vo", "Corr/FsCorr.vo"],
+    },
 }
 
 NOT_CLAIMED = {}
